@@ -109,7 +109,20 @@ def defined_dispatch(ctx):
             ctx.lost("R05.2", "TypeEncoder::" + m)
             continue
         ctx.touch(g)
-        called = {t.path.rsplit("::", 1)[1] for t in g.calls() if (t.path or "").startswith("wasm_encoder::component::types::ComponentDefinedTypeEncoder::")}
+        called = set()
+        seen = set()
+        work = [g]
+        while work:     # look through helpers extracted from the method (local callees in the encoder, depth-limited by `seen`)
+            h = work.pop()
+            if h.id in seen or len(seen) > 6:
+                continue
+            seen.add(h.id)
+            for t in h.calls():
+                p_ = t.path or ""
+                if p_.startswith("wasm_encoder::component::types::ComponentDefinedTypeEncoder::"):
+                    called.add(p_.rsplit("::", 1)[1])
+                elif p_.startswith("wac_graph::encoding::TypeEncoder::") and p_ in db.fns and p_.rsplit("::", 1)[1] not in pairs and p_.rsplit("::", 1)[1] not in ("value_type", "defined", "ty"):
+                    work.append(db.fns[p_])
         ctx.ob("R05.2", "emit|" + m, called == {we}, "TypeEncoder::%s emits `%s`" % (m, we) if called == {we} else "TypeEncoder::%s emits %s (expected `%s`)" % (m, sorted(called), we), site=g.span)
 
 
